@@ -72,6 +72,9 @@ func Check(props map[string]bool, prev, cur M) (string, string) {
 		if d := taskWithPromise(prev, cur); d != "" {
 			return "C08", d
 		}
+		if d := routedHasTask(prev, cur); d != "" {
+			return "C08", d
+		}
 	}
 	if props["C09"] {
 		if d := lockUnique(cur); d != "" {
@@ -191,6 +194,27 @@ func taskWithPromise(prev, cur M) string {
 			if _, existed := byKey(rows(prev, "tasks"), "id")[str(t["id"])]; existed {
 				return fmt.Sprintf("promise %q completed but its task %q is still live (state %d)", root, str(t["id"]), s)
 			}
+		}
+	}
+	return ""
+}
+
+// C08 (second half): a promise whose routing tag is a plain string (not JSON) is always matched by the
+// router, so it must have been created together with its invocation task
+func routedHasTask(prev, cur M) string {
+	before := byKey(rows(prev, "promises"), "id")
+	tasks := byKey(rows(cur, "tasks"), "id")
+	for _, p := range rows(cur, "promises") {
+		id := str(p["id"])
+		if _, existed := before[id]; existed {
+			continue
+		}
+		tag, ok := pairs(p["tags"])["resonate:invoke"]
+		if !ok || json.Valid([]byte(tag)) {
+			continue
+		}
+		if _, has := tasks["__invoke:"+id]; !has {
+			return fmt.Sprintf("promise %q is routed (resonate:invoke=%q) but was created without its invocation task", id, tag)
 		}
 	}
 	return ""
